@@ -28,7 +28,8 @@ fn through(text: &str) -> Result<Result<(Value, String, Rcvar), String>, String>
 }
 
 fn ulps(a: f64, b: f64) -> u64 {
-    if a == b {
+    // "exactly the double it denotes": the two zeros are different doubles
+    if a.to_bits() == b.to_bits() {
         return 0;
     }
     let (x, y) = (a.to_bits() as i64, b.to_bits() as i64);
